@@ -105,9 +105,9 @@ def events_from_predict(y):
 
 
 def assert_capa_outputs(n, msl, maxl, coll, point, pens, scores, events, closed, scale,
-                        assert_optimal=True):
+                        assert_optimal=True, rel=1e-9):
     c_alpha, c_betas, p_alpha, p_betas = pens
-    tol = 1e-9 * (1.0 + scale)
+    tol = rel * (1.0 + scale)
     if closed != "left":
         raise Violation("anomaly intervals are not left-closed", closed=closed)
     if len(scores) != n:
@@ -259,9 +259,72 @@ def builtin_cases(draw, tier):
         fams = ["dense", "sparse", "combined"] + (["intermediate"] if p >= 2 else [])
         case["c_pen"] = draw(st.sampled_from(fams))
         case["p_pen"] = draw(st.sampled_from(fams))
+    # a sentinel / gross error early in the series (missing-value codes such as -9999, 999999): every later anomaly is
+    # tiny relative to the cumulative score
+    sentinel = draw(st.sampled_from([None, None, None, 9999.0, 99999.0, 999999.0, -9999.0])) if "Cov" not in coll else None
+    sent_at, sent_col = draw(st.integers(0, max(0, n // 3))), draw(st.integers(0, p - 1))
     # bulk data last (see strategies/data.py)
     case["X"], meta = draw(D.structured_matrix(n, p, exact=exact, boundary_positions=(0, 1, msl - 1, n - 1, n - msl),
                                                max_shifts=1, max_spikes=3, max_bumps=3))
+    if sentinel is not None:
+        case["X"][sent_at][sent_col] = sentinel
+        case["sentinel"] = sentinel
+    return case
+
+
+@st.composite
+def staggered_cases(draw, tier):
+    """MVCAPA on a long anomaly that one column starts alone, that is briefly interrupted, and that other columns join
+    later with weak signals: while the anomaly grows, a split into two anomalies is temporarily better, and the optimal
+    set of columns of a given start changes over time (this is where the pruning of candidate starts matters).
+
+    Half of the cases are placed at the pruning boundary: right after the interruption the start `a` trails the running
+    optimum by an amount between the smallest (alpha + beta) and the largest (alpha + p beta) penalty a start can pay,
+    while the other columns' savings since `a` are still just below their penalty beta - they pay off only later."""
+    boundary = draw(st.booleans())
+    p = draw(st.integers(3, 6)) if boundary else draw(st.integers(2, 4))
+    n = draw(st.integers(24, 44 if tier == "quick" else 60))
+    case = {"detector": "MVCAPA", "coll": draw(st.sampled_from(["L2Saving", "Saving(L2Cost(0))"])), "point": "L2Saving",
+            "msl": draw(st.integers(2, 4)), "maxl": draw(st.sampled_from([1000, 1000, n - 2])),
+            "c_scale": draw(st.sampled_from([2.0, 1.0, 3.0, 0.5, 1.5])), "p_scale": draw(st.sampled_from([3.0, 1.0, 2.0])),
+            "c_pen": draw(st.sampled_from(["sparse", "combined", "intermediate"])),
+            "p_pen": draw(st.sampled_from(["sparse", "combined", "dense"]))}
+    a = draw(st.integers(0, 6))
+    lead = draw(st.sampled_from([1.5, 2.0, 2.5, 3.0]))
+    gap_len = draw(st.integers(1, 3))
+    if boundary:
+        b = draw(st.integers(n - 8, n))
+        first = draw(st.integers(4, 8))  # samples of the leading column before the interruption
+        gap_at = a + first
+        u = draw(st.sampled_from([0.15, 0.3, 0.5, 0.7, 0.9]))
+        q = draw(st.sampled_from([0.5, 0.7, 0.85, 0.95]))
+        noise_scale = draw(st.sampled_from([0.3, 0.1, 0.6]))
+        alpha, beta = 2 * case["c_scale"] * math.log(n), 2 * case["c_scale"] * math.log(p)
+        s0 = lead * lead * first
+        drop = alpha + beta * (1 + u * q * (p - 1))
+        if s0 <= drop * 1.05:
+            lead = math.sqrt(drop * 1.3 / first)
+            s0 = lead * lead * first
+        gap_val = (math.sqrt((s0 - drop) * (first + gap_len)) - lead * first) / gap_len
+        onset = [a] * (p - 1)
+        weak = [math.sqrt(q * beta / (first + gap_len))] * (p - 1)
+    else:
+        b = draw(st.integers(n - 14, n))
+        gap_at = draw(st.integers(a + 4, max(a + 4, b - 5)))
+        gap_val = -draw(st.sampled_from([1.0, 2.0, 3.0, 0.0]))
+        weak = [draw(st.sampled_from([0.4, 0.6, 0.8, 1.0, 1.2])) for _ in range(p - 1)]
+        onset = [draw(st.integers(a, max(a, b - 4))) for _ in range(p - 1)]
+        noise_scale = draw(st.sampled_from([1.0, 0.5, 1.5]))
+    X = draw(D.noise_matrix(n, p, False))  # bulk data last (see strategies/data.py)
+    X = [[v_ * noise_scale for v_ in row] for row in X]
+    for i in range(a, b):
+        X[i][0] += gap_val if gap_at <= i < gap_at + gap_len else lead
+        for j in range(1, p):
+            if i >= onset[j - 1]:
+                X[i][j] += weak[j - 1]
+    case["tuned"] = boundary
+    case["X"] = X
+    case["family"] = "staggered"
     return case
 
 
@@ -335,8 +398,11 @@ def check_builtin(case):
             if not sub_ok:
                 break
     sub_ok = sub_ok and bool(np.all(S[~np.isnan(S)] >= -tol)) and bool(np.all(Pt >= -tol))
+    # The reference uses the very same saving values (same library routine, per-interval values do not depend on the
+    # batch), so the only legitimate difference is the order of the additions in the recursion: n additions at the
+    # magnitude of the scores. (A fixed 1e-9 relative tolerance would hide anomalies lost after one huge value.)
     assert_capa_outputs(n, msl, maxl, lambda s, e: S[s, e], lambda t: Pt[t], pens, scores, events,
-                        closed, scale, assert_optimal=sub_ok)
+                        closed, scale, assert_optimal=sub_ok, rel=64 * (n + 1) * np.finfo(float).eps)
     ev_ign, _ = events_from_predict(y_ign)
     expected_ign = [(a, b) for a, b in events if b - a > 1]
     if ev_ign != expected_ign:
@@ -347,6 +413,10 @@ def check_builtin(case):
     classes = [f"detector={case['detector']}", f"coll={case['coll']}"]
     if case["detector"] == "MVCAPA":
         classes.append(f"c_pen={case['c_pen']}")
+    if case.get("tuned"):
+        classes.append("placed_at_pruning_boundary")
+    if case.get("sentinel") is not None:
+        classes.append("sentinel_value")
     for flag, name in ((has_coll, "collective"), (has_point, "point"), (p > 1, "p>1"),
                        (not sub_ok, "precondition_fails"),
                        (any(a < msl - 1 and b - a == 1 for a, b in events), "point_in_first_msl-1"),
@@ -418,7 +488,19 @@ FACETS = [
         strategy=builtin_cases,
         rule=("L2Saving / Saving(L2Cost(0)) / Saving(GaussianVarCost) / Saving(GaussianCovCost) / cost passed directly, "
               "CAPA and MVCAPA with all four penalty families x scales, structured data with bumps and spikes "
-              "(also in the first msl-1 samples, adjacent events); non-trivial = >=1 anomaly and savings sub-additive"),
+              "(also in the first msl-1 samples, adjacent events; optionally one early sentinel value of magnitude 1e4..1e6); scores compared at 64 (n+1) eps relative; non-trivial = >=1 anomaly and savings sub-additive"),
         n_quick=640, n_thorough=8000, shards_quick=8, shards_thorough=16,
+    ),
+    Facet(
+        name="staggered_mvcapa",
+        check=check_builtin,
+        strategy=staggered_cases,
+        rule=("MVCAPA (p 2..6, n 24..44, sparse / combined / intermediate collective penalties at scales 0.5..3) on a long anomaly that "
+              "one column starts alone, that is interrupted for 1-3 samples, and that the other columns join later with weak "
+              "signals (the optimal column set of a start changes while the anomaly grows); half of the cases are placed at the "
+              "pruning boundary (the start trails the running optimum by between the smallest and the largest penalty it can pay, the "
+              "other columns' savings still just below their penalty); same exhaustive reference optimum; "
+              "non-trivial = >=1 anomaly and savings sub-additive"),
+        n_quick=240, n_thorough=4000, shards_quick=8, shards_thorough=16,
     ),
 ]
